@@ -69,7 +69,8 @@ type Scenario func() (body func(), check func(e *End) (tag, detail string))
 // Config of one exploration.
 type Config struct {
 	Name     string
-	Bound    int // maximum number of deviations (iterated 0..Bound)
+	Bound    int // maximum number of deviations (iterated MinBound..Bound)
+	MinBound int // first bound of the iteration (rounds are driven by the runner)
 	Horizon  int // steps; default 20000
 	Race     bool
 	Deadline time.Time
@@ -134,7 +135,7 @@ func Explore(cfg Config, sc Scenario) Stats {
 		old := debug.SetGCPercent(-1)
 		defer debug.SetGCPercent(old)
 	}
-	for b := 0; b <= cfg.Bound; b++ {
+	for b := cfg.MinBound; b <= cfg.Bound; b++ {
 		e.bound = b
 		e.explore(nil, 0)
 		if e.ndet != "" {
